@@ -31,26 +31,31 @@ def check(ctx):
     g = CFG(run, may_raise=any_call_may_raise)
     execs = R.calls_to(m, run, rr.run_physical)
     # ---------------------------------------------------------------- D1
-    tests = [n for n in run.own_nodes() if isinstance(n, ast.If) and norm(n.test) in ("dry_run", "dry_run is True", "dry_run == True")]
+    tests = []
+    for n in run.own_nodes():
+        if isinstance(n, ast.If):
+            t_, pol_ = E._positive(n.test, True)
+            if norm(t_) in ("dry_run", "dry_run is True", "dry_run == True"):
+                tests.append((n, pol_))
     ok = len(tests) == 1
     ctx.ob("C14.D1", f"{run.short}/dry-run-test", ok, loc(run), "one `if dry_run:` test" if ok else f"{len(tests)} dry_run tests in run")
+    pair_site = None  # (statement whose CFG nodes stand for 'the dry-run result is taken here', Tuple expression)
     if ok:
-        t = tests[0]
-        rets = [s for s in t.body if isinstance(s, ast.Return)]
-        ok = len(rets) == 1 and t.body[-1] is rets[0]
-        ctx.ob("C14.D1", f"{run.short}/true-arm-returns", ok, loc(run, t), "the dry-run arm returns" if ok else "the dry-run arm does not return", head(t))
+        t, pol = tests[0]
+        dry_lab = "t" if pol else "f"
         tn = set(g.of(t))
+        dry_entry = [b for n_ in tn for b, lab in g.succ[n_] if lab == dry_lab]
+        dry_reach = set(dry_entry) | g.reach(dry_entry)
+        exec_nodes = {xn for x in execs for xn in g.of_stmt_containing(x, run.module)}
+        # the dry arm never reaches the execution, and what it hands back is a (plan, node) pair
+        okr = bool(dry_entry) and not (dry_reach & exec_nodes)
+        ctx.ob("C14.D1", f"{run.short}/true-arm-returns", okr, loc(run, t), "the dry-run arm returns" if okr else "the dry-run arm does not return", head(t))
         for x in execs:
             for xn in g.of_stmt_containing(x, run.module):
                 dom = g.dominates(tn, xn)
-                # reachable only through the false edge
-                via_true = False
-                for n_ in tn:
-                    for b, lab in g.succ[n_]:
-                        if lab == "t" and (xn in g.reach([b]) or b is xn):
-                            via_true = True
-                ctx.ob("C14.D1", f"{run.short}/test-dominates-execution", dom and not via_true, loc(run, x),
-                       "execution is reached only through the false arm of the dry_run test" if dom and not via_true else
+                via_dry = xn in dry_reach
+                ctx.ob("C14.D1", f"{run.short}/test-dominates-execution", dom and not via_dry, loc(run, x),
+                       "execution is reached only through the false arm of the dry_run test" if dom and not via_dry else
                        "execution can be reached without passing the dry_run test on its false arm", norm(x)[:80])
         # user-reaching calls before the test: only the registry application (stale check) and transform_physical
         before = g.reach([g.entry], avoid=tn)
@@ -64,37 +69,48 @@ def check(ctx):
             names = {f.name for f in fs}
             okc = rr.apply in fs or (isinstance(c.func, ast.Name) and c.func.id in ("transform_physical",)) or \
                 names & {"_coerce_progress", "_update_run_totals", "assert_is_instance", "assert_is_callable", "_coerce_retry", "get_mutable_plan", "prune_plan"} \
-                or (isinstance(c.func, ast.Attribute) and c.func.attr in ("observer", "gather"))
+                or (isinstance(c.func, ast.Attribute) and c.func.attr in ("observer", "gather", "copy"))
             ctx.ob("C14.D1", f"{run.short}/before-test", bool(okc), loc(run, c),
                    "allowed before the dry_run test (validation, observer, stale check, transformations)" if okc else
                    "a user-reaching call other than the stale check / transformations runs before the dry_run test", norm(c)[:100])
+        # where the dry-run pair is produced: a `return (p, n)` or `result = (p, n)` statement on the dry arm
+        for n_ in run.own_nodes():
+            v_ = n_.value if isinstance(n_, (ast.Return, ast.Assign)) else None
+            if isinstance(v_, ast.Tuple) and any(cn_ in dry_reach for cn_ in g.of(n_)) and not any(cn_ in exec_nodes for cn_ in g.of(n_)):
+                if pair_site is None or isinstance(n_, ast.Return):
+                    pair_site = (n_, v_)
     # ---------------------------------------------------------------- D4
     if tests and execs:
-        t = tests[0]
-        ret = [s for s in t.body if isinstance(s, ast.Return)][0]
-        rv = ret.value
-        okshape = isinstance(rv, ast.Tuple) and len(rv.elts) == 2 and all(isinstance(x, ast.Name) for x in rv.elts)
-        ctx.ob("C14.D4", f"{run.short}/returns-pair", okshape, loc(run, ret), "returns (plan, output node)" if okshape else "dry run does not return a (plan, node) pair", norm(ret))
-        if okshape:
-            x = execs[0]
-            pa, oa = arg(x, 0, "plan"), arg(x, None, "output_node")
-            same = is_name(pa, rv.elts[0].id) and is_name(oa, rv.elts[1].id)
-            ctx.ob("C14.D4", f"{run.short}/same-variables", same, loc(run, x),
-                   "the dry-run pair and the executed pair are the same variables" if same else
-                   f"dry run returns ({norm(rv.elts[0])}, {norm(rv.elts[1])}) but execution receives ({norm(pa)}, {norm(oa)})", norm(x)[:100])
-            for v in (rv.elts[0].id, rv.elts[1].id):
-                rd = reaching_defs(g, v)
-                a = set()
-                for n_ in g.of(ret):
-                    a |= rd[n_]
-                b = set()
-                for n_ in g.of_stmt_containing(x, run.module):
-                    b |= rd[n_]
-                okd = a == b
-                ctx.ob("C14.D4", f"{run.short}/{v}-same-definitions", okd, loc(run, ret),
-                       f"{v}: the same definitions reach the dry-run return and the execution" if okd else
-                       f"{v}: definitions reaching the execution ({sorted(norm(d.ast)[:50] for d in b - a if d.ast is not None)}) do not reach "
-                       f"the dry-run return: the returned plan is not the plan a real run executes", norm(ret))
+        if pair_site is None:
+            ctx.ob("C14.D4", f"{run.short}/returns-pair", False, loc(run), "dry run does not return a (plan, node) pair")
+        else:
+            ret, rv = pair_site
+            okshape = isinstance(rv, ast.Tuple) and len(rv.elts) == 2 and all(isinstance(x, ast.Name) for x in rv.elts)
+            if isinstance(ret, ast.Assign):
+                # the variable assigned must be what run returns
+                okshape = okshape and len(ret.targets) == 1 and isinstance(ret.targets[0], ast.Name) and \
+                    any(isinstance(r_, ast.Return) and is_name(r_.value, ret.targets[0].id) for r_ in run.own_nodes())
+            ctx.ob("C14.D4", f"{run.short}/returns-pair", okshape, loc(run, ret), "returns (plan, output node)" if okshape else "dry run does not return a (plan, node) pair", norm(ret))
+            if okshape:
+                x = execs[0]
+                pa, oa = arg(x, 0, "plan"), arg(x, None, "output_node")
+                same = is_name(pa, rv.elts[0].id) and is_name(oa, rv.elts[1].id)
+                ctx.ob("C14.D4", f"{run.short}/same-variables", same, loc(run, x),
+                       "the dry-run pair and the executed pair are the same variables" if same else
+                       f"dry run returns ({norm(rv.elts[0])}, {norm(rv.elts[1])}) but execution receives ({norm(pa)}, {norm(oa)})", norm(x)[:100])
+                for v in (rv.elts[0].id, rv.elts[1].id):
+                    rd = reaching_defs(g, v)
+                    a = set()
+                    for n_ in g.of(ret):
+                        a |= {d.ast for d in rd[n_]}
+                    b = set()
+                    for n_ in g.of_stmt_containing(x, run.module):
+                        b |= {d.ast for d in rd[n_]}
+                    okd = a == b
+                    ctx.ob("C14.D4", f"{run.short}/{v}-same-definitions", okd, loc(run, ret),
+                           f"{v}: the same definitions reach the dry-run return and the execution" if okd else
+                           f"{v}: definitions reaching the execution ({sorted(norm(d)[:50] for d in b - a if d is not None)}) do not reach "
+                           f"the dry-run return: the returned plan is not the plan a real run executes", norm(ret))
     # ---------------------------------------------------------------- D2
     n_sites = 0
     stale_funcs = set(rr.stale_closures) | {rr.stale}
